@@ -1,6 +1,7 @@
 CONSTANTS
   MaxD = 2
   Locked = FALSE
+  CanDisconnect = FALSE
   AllGroups = TRUE
 SPECIFICATION Spec
 INVARIANTS FramesAtomic
